@@ -73,7 +73,7 @@ register('C15',
          '(old,new); (c) under the validity chain the flag back-fill switches on exactly the flags of the columns that differ '
          'from the positional predecessor (all flags for a first version), NULL being an ordinary value, and changes nothing '
          'else. Both models are compared with version.changeset and schema.update_property_mod_flags on random tables every '
-         'run. Clause (b), flags written by the object path, is decided with the unit-of-work model (see C11/C15b in DESIGN).',
+         'run. Clause (b), flags written by the object path: histories with the tracker plugin (several flushes per transaction, inserts and deletes in later flushes) are replayed in the unit-of-work model and the flags of every row written are compared with the model and with the column-wise difference to the predecessor (C15b_prop).',
          COMMON_NOTE + 'Python != on ints/None is modelled by val_eqb.',
          'Coq proof (list reasoning on top of the C08 position lemmas) + vm_compute correspondence against version.changeset and schema.update_property_mod_flags',
          'DESIGN.md §7 C15')
@@ -85,7 +85,7 @@ register('C02',
          'carries the one current id; the record, once created, stays current until the transaction ends; a flush creates a record '
          'iff some versioned object is new/deleted/modified, exactly one, larger than all earlier ids. The machine mirrors '
          'unit_of_work.py/manager.py/operation.py branch for branch and is replayed on recorded listener-level traces of the real '
-         'code and compared with the real tables after every flush/commit/rollback on every run.',
+         'code and compared with the real tables after every flush/commit/rollback on every run; the histories include a second application session on the same connection committed inside the transaction, and (judged on the observations only, the model\'s configuration being fixed per run) the manager-level switch options[versioning] toggled between flush and commit. The observation predicate also requires that no row WRITTEN in a transaction carries the id of an earlier record.',
          COMMON_NOTE + 'The SQLAlchemy session is environment: it enters as the recorded event trace (well-formedness monitored). '
          'Plugin-supplied transaction attributes (Flask, TransactionMeta) are opaque to the model and not compared.',
          'Coq proof (inductive invariant over event traces) + vm_compute replay of recorded traces against the real tables',
@@ -151,9 +151,9 @@ register('C17',
          'id; with the plugin the names recorded for the current transaction are exactly the classes of the operations map, one '
          'entry per class, entries of other transactions untouched; every unprocessed operation leaves its row at the current id '
          'and every new row belongs to an operation. At every commit of every generated history the transaction_changes rows '
-         'are compared with the classes having a row stamped with each id.',
+         'are compared with the classes having a row stamped with each id; Transaction.changed_entities of every record is read at the end (through the record object the application looked at between two flushes, where it did) and compared with the version rows carrying its id; shapes include two versioned classes with the same __name__ and, judged on the observations only, a key that changes class within a transaction.',
          COMMON_NOTE + 'The composition "operations map = classes with a row" at commit is carried by the two theorems plus the replay; '
-         'Transaction.changed_entities itself is a plain filter query. Flat classes only.',
+         'Transaction.changed_entities itself is a plain filter query. One open known finding (F-C17-class-change-drops-child-part).',
          'Coq proof (list lemmas on add_changes + fold over operations) + vm_compute replay of recorded traces',
          'DESIGN.md §7 C17')
 
